@@ -140,7 +140,54 @@ class C08(Prop):
         conc = concretize(self.id, abstract) if abstract else {}
         for sid, text in conc.items():
             cases.append(Case(sid, text, metas[sid]))
+        cases += self.cases_udp(rng, 40 if tier == "quick" else 1500)
         return cases
+
+    def cases_udp(self, rng, n):
+        """datagram transports (UDP, unconnected socket): every datagram has a sender address (hook H7 lets the mock
+        physical layer report it).  A fragment is assembled only from segments of ONE link source AND one sender
+        address; a series that fits these is delivered also when several of its frames share a datagram, and the
+        fragment is attributed to that sender.  Implementation only: the sender address is not part of the Coq model."""
+        out = []
+        for i in range(n):
+            sid = "c08_u_%d" % i
+            src = rng.choice([MASTER, 2, 60000])
+            pa, pb = 20000 + rng.below(100), 30000 + rng.below(100)
+            seq = rng.below(64)
+            cap = rng.choice([249, 2048])
+            kind = rng.choice(["one-per-dgram", "two-segs-one-dgram", "two-frags-one-dgram", "splice-ports", "splice-ports", "other-port-between"])
+            feeds, expect = [], []
+            def fr(t, c, s_=src): return dnp.link_frame(0xC4, ME, s_, bytes([t]) + c)
+            a = rng.bytes(rng.choice([10, 100, 140]))
+            b = rng.bytes(rng.choice([1, 10, 120]))
+            if cap == 249:
+                a, b = a[:100], b[:100]      # two frames must fit one datagram of at most 293 octets
+            two = [(0x40 | seq, a), (0x80 | ((seq + 1) & 63), b)]
+            if kind == "one-per-dgram":
+                feeds = [(fr(*two[0]), pa), (fr(*two[1]), pa)]; expect = [(src, a + b, pa)]
+            elif kind == "two-segs-one-dgram":
+                feeds = [(fr(*two[0]) + fr(*two[1]), pa)]; expect = [(src, a + b, pa)]
+            elif kind == "two-frags-one-dgram":
+                feeds = [(fr(0xC0 | seq, a) + fr(0xC0 | ((seq + 1) & 63), b), pa)]; expect = [(src, a, pa), (src, b, pa)]
+            elif kind == "splice-ports":
+                feeds = [(fr(*two[0]), pa), (fr(*two[1]), pb)]; expect = []
+            else:
+                c = rng.bytes(5)
+                feeds = [(fr(*two[0]), pa), (fr(0xC0 | rng.below(64), c), pb), (fr(*two[1]), pa)]
+                expect = [(src, c, pb)]            # the other sender's complete fragment; ours was interrupted
+            tail = rng.bytes(rng.range(1, 30))
+            feeds.append((fr(0xC0 | rng.below(64), tail), pa)); expect.append((src, tail, pa))
+            ops = [("feed", hexs(f), "@%d" % p) for f, p in feeds]
+            out.append(Case(sid, script_text(sid, "treader", {"mode": "discard", "read": "datagram", "frag": cap, "role": "outstation",
+                                                               "addr": ME, "phys": 1, "decode": rng.below(4)}, ops),
+                            {"kind": "udp", "mutation": kind, "impl_only": True,
+                             "expect_udp": [[s_, hexs(d), p] for s_, d, p in expect]}))
+        return out
+
+    def model_script(self, case, impl):
+        if case.meta.get("impl_only"):
+            return case.script.split("\n", 1)[0] + "\nE"
+        return case.script
 
     def oracle(self, case, impl):
         m = case.meta
@@ -152,6 +199,16 @@ class C08(Prop):
             got = [l for l in impl if l.startswith("tx ")]
             if got != m["expect_tx"]:
                 fails.append(("write-segments", "frames written differ from the independent segmenter (%d vs %d frames)" % (len(got), len(m["expect_tx"]))))
+            return fails
+        if m.get("kind") == "udp":
+            got = []
+            for l in impl:
+                f = l.split()
+                if f[0] == "frag" and len(f) >= 6:
+                    got.append([int(f[2]), f[4], int(f[5][1:]) if f[5][1:].isdigit() else None])
+            if got != m["expect_udp"]:
+                fails.append(("udp-sender", "datagram transport (%s): delivered (source, octets, sender port) %s, expected %s"
+                              % (m["mutation"], [(g[0], g[1][:12], g[2]) for g in got], [(e[0], e[1][:12], e[2]) for e in m["expect_udp"]])))
             return fails
         if "segments" not in m:
             return fails
